@@ -532,6 +532,46 @@ pub fn parse_case(line: &str) -> (Tree, Tree, Vec<Op>) {
     (a, b, ops)
 }
 
+fn non_utf8_twin_pairs(env: &Env) -> Vec<String> {
+    use std::ffi::OsString;
+    use std::os::unix::ffi::OsStringExt;
+    let mut fails = vec![];
+    let base = std::path::PathBuf::from(format!("{}/twin", env.dir));
+    let _ = std::fs::remove_dir_all(&base);
+    let mk = |b: u8| { let mut n = b"caf".to_vec(); n.push(b); base.join(OsString::from_vec(n)) };
+    let (p1, p2) = (mk(0xe9), mk(0xe8));
+    let w = |p: std::path::PathBuf, c: &[u8]| { std::fs::create_dir_all(p.parent().unwrap()).unwrap(); std::fs::write(p, c).unwrap(); };
+    for side in ["A", "B"] {
+        w(p1.join(side).join("f"), b"one");
+        w(p1.join(side).join("g"), b"two");
+    }
+    // the second pair: f on both sides, g on B only - with NO recorded state of its own
+    w(p2.join("A").join("f"), b"one");
+    w(p2.join("B").join("f"), b"one");
+    w(p2.join("B").join("g"), b"two");
+    let home = format!("{}/twin-home", env.dir);
+    let _ = std::fs::remove_dir_all(&home);
+    std::fs::create_dir_all(&home).unwrap();
+    let run = |p: &std::path::PathBuf| {
+        let o = Command::new(&env.copia).arg("bisync").arg(p.join("A")).arg(p.join("B")).env("HOME", &home).env("HOSTNAME", "vphost").output().unwrap();
+        (o.status.code(), String::from_utf8_lossy(&o.stderr).into_owned())
+    };
+    let (c1, _) = run(&p1);
+    let (c2, e2) = run(&p2);
+    if c1 != Some(0) {
+        fails.push(format!("twin C07 the first pair (a directory name with the byte 0xe9) did not sync: exit {:?}", c1));
+    }
+    if !e2.contains("SAFE no-base mode") {
+        fails.push("twin C07 a pair that was never synced (canonical roots differ from a synced pair's in one non-UTF-8 byte: caf\\xe8 vs caf\\xe9) did not run in SAFE no-base mode: it trusted the other pair's record".to_string());
+    }
+    if !p2.join("B").join("g").exists() || std::fs::read(p2.join("A").join("g")).ok() != Some(b"two".to_vec()) {
+        fails.push(format!("twin C07 a pair that was never synced lost or failed to create a one-sided file (exit {:?}): B/g exists {}, A/g created {}", c2, p2.join("B").join("g").exists(), p2.join("A").join("g").exists()));
+    }
+    let _ = std::fs::remove_dir_all(&base);
+    let _ = std::fs::remove_dir_all(&home);
+    fails
+}
+
 fn gen_history(r: &mut Rng, pool: &[Vec<u8>], paths: &[&str]) -> (Tree, Tree, Vec<Op>, &'static str) {
     let mut a = Tree::new();
     let mut b = Tree::new();
@@ -669,6 +709,15 @@ pub fn main(a: Args) -> i32 {
     if a.replay.is_none() {
         let (n, fails) = archive_fault_enum(&env, &mut r, a.tier == "thorough");
         out.add("archive_load_fault_cases", n);
+        for f in fails {
+            nfail += 1;
+            out.line("specfail.txt", &f);
+        }
+        // a FOREIGN archive that is foreign only in bytes that are not valid UTF-8: two directory pairs whose canonical
+        // paths differ in one byte of a Latin-1 directory name.  The pair that has never been synced must run in the
+        // safe no-base mode, whatever the other pair recorded (oracle-only: the model's pair identity is abstract)
+        let fails = non_utf8_twin_pairs(&env);
+        out.add("non_utf8_twin_pair_runs", 1);
         for f in fails {
             nfail += 1;
             out.line("specfail.txt", &f);
